@@ -248,6 +248,29 @@ Section WithSymboliser.
     end.
 End WithSymboliser.
 
+(* ---------------------------------------------------------------- crashmonitor.Child
+
+   Child reads ALL of its standard input (io.ReadAll), treats fewer than two
+   newlines as "the parent exited without a crash", and otherwise counts the
+   name derived from the whole text, or crash/malformed on error. *)
+Inductive child_outcome :=
+| NoCrash
+| Malformed
+| Counted (name : bytes).
+
+Fixpoint count_newlines (s : bytes) : nat :=
+  match s with
+  | [] => O
+  | c :: s' => if c =? 10 then S (count_newlines s') else count_newlines s'
+  end.
+
+Definition monitor_child (symb : list N -> list frame) (child : N) (stdin : bytes) : child_outcome :=
+  if Nat.ltb (count_newlines stdin) 2 then NoCrash
+  else match counter_name symb child stdin with
+       | Err => Malformed
+       | Ok name => Counted name
+       end.
+
 (* ---------------------------------------------------------------- the projection *)
 
 (* phase 1: everything up to the header of the first running goroutine *)
